@@ -30,6 +30,8 @@ RoundUp(n, a)   == RoundDown(n + a - 1, a)
 IsPow2(n) == n \in {1, 2, 4, 8, 16, 32, 64, 128, 256, 512, 1024, 2048, 4096}
 
 Sum(seq) == FoldLeft(LAMBDA acc, x: acc + x, 0, seq)
+RECURSIVE Log2Ceil(_)
+Log2Ceil(n) == IF n <= 1 THEN 0 ELSE 1 + Log2Ceil((n + 1) \div 2)
 
 \* ---- event accessors -----------------------------------------------------
 \* ga entry: <<kind (1 alloc, 2 free), size, align, addr, ok>>
@@ -150,7 +152,11 @@ Step ==
                  <<b, {o \in liveA \ {b} : o[3] > 0 /\ ~(b[2] + b[3] <= o[2] \/ o[2] + o[3] <= b[2])}>>)
           \* -------------------------------------------------------- C04 ----
           /\ Chk("C04", "AlignedAsRequested", b[2] % b[4] = 0, b)
-          /\ Chk("C04", "AlignedToMinAlign", validMa => b[2] % ma = 0, <<b, ma>>)
+          \* (the &mut T handed out by alloc_try_with points *into* the reserved Result<T, E> slot:
+          \*  the slot is what was allocated, its interior need not be MIN_ALIGN-aligned)
+          /\ Chk("C04", "AlignedToMinAlign",
+                 (validMa /\ ~(e.op \in {"alloc_try_with", "try_alloc_try_with"} /\ b[2] = e.addr /\ e.off # 0)) => b[2] % ma = 0,
+                 <<b, ma>>)
      /\ Chk("C04", "InvalidMinAlignRefused",
             (e.op \in CtorOps /\ ~validMa) => e.res = "panic", e.res)
      /\ Chk("C04", "ValidMinAlignAccepted",
@@ -197,9 +203,20 @@ Step ==
             <<e.len, e.cap>>)
      /\ \A k \in grants :
           Chk("C18", "NewChunkAtLeastDoubleUnlessConstrained",
-              (e.op \notin CtorOps /\ limB = -1 /\ {j \in refusals : j < k} = {} /\ heldB # <<>>) =>
-                 GaSize(e.ga[k]) - K >= 2 * (heldB[Len(heldB)][2] - K),
-              <<e.ga[k], heldB[Len(heldB)]>>)
+              LET hb == HeldAfter(heldB, e.ga, k - 1) IN
+              (e.op \notin CtorOps /\ limB = -1 /\ {j \in refusals : j < k} = {} /\ hb # <<>>) =>
+                 GaSize(e.ga[k]) - K >= 2 * (hb[Len(hb)][2] - K),
+              <<e.ga[k], heldB>>)
+     \* volume workloads: the number of chunks grows at most logarithmically with the bytes stored and the
+     \* memory held stays within a constant factor of what the requests occupy
+     /\ Chk("C18", "ChunkCountLogarithmicInVolume",
+            (e.op = "bulk" /\ e.res = "ok" /\ limB = -1 /\ e.size > 0) =>
+               Len(heldA) <= 4 + Log2Ceil((e.size * e.len) \div 448 + 1),
+            <<Len(heldA), e.size, e.len>>)
+     /\ Chk("C18", "HeldWithinConstantFactorOfVolume",
+            (e.op = "bulk" /\ e.res = "ok" /\ limB = -1 /\ e.size > 0 /\ hasPrev /\ pe.op \in CtorOps) =>
+               total \div 8 <= ((RoundUp(e.size, MaxI(e.align, IF validMa THEN ma ELSE 1)) * e.len) \div 2) + pe.abm + 4096,
+            <<total, e.size, e.len>>)
      \* ------------------------------------------------------------ C09 ----
      /\ Chk("C09", "NoHang", e.res # "hang", e.op)
      /\ Chk("C09", "FallibleNeverPanics", e.fall = 1 => e.res # "panic", e.res)
